@@ -65,6 +65,10 @@ def child_steps(kind: str, name: str) -> list[dict[str, Any]]:
         return [{"op": "mark", "tag": name}]
     if kind == "gate":
         return [{"op": "gate", "label": f"{name}.g"}]
+    if kind == "fails":
+        return [{"op": "fail", "tag": name}]  # fails at its first step: the scope's group cancels the body itself
+    if kind == "slow-cleanup":
+        return [{"op": "gate", "label": f"lp-{name}", "on_cancel_sleep": 4}]  # blocked; once cancelled its cleanup takes four loop turns
     if kind == "cleanup-fails":
         return [{"op": "gate", "label": f"lp-{name}", "on_cancel_raise": True}]  # blocked like "blocked"; if cancelled there, its cleanup raises
     return [{"op": "gate", "label": f"lp-{name}"}]  # blocked: low priority gate, released only when nothing else can run
@@ -96,6 +100,14 @@ def small_programs():  # noqa: ANN201
                  [["gate-raise", "ok", "spawn"], ["ok", "gate"]]):
         uid = itertools.count(1)
         yield [make_block("out", disp, [], [], uid), {"op": "gate", "label": "after.fallback"}]
+    # a spawned task fails in the body (the group cancels its parent itself), the body answers that with an error of its own which the
+    # surrounding code handles, and the exit then waits for a task that is slow to clean up: one more place to be cancelled in
+    for children in (["slow-cleanup", "fails"], ["fails", "slow-cleanup", "blocked"]):
+        uid = itertools.count(1)
+        blk = make_block("out", [], children, [], uid)
+        blk["convert_cancel"] = True
+        blk["catch"] = "exceptions"
+        yield [blk, {"op": "gate", "label": "after.handled"}]
     # deterministic witnesses of known finding D38 / D38b: a child whose cleanup fails inside a nested scope, a blocked child outside
     uid = itertools.count(1)
     yield [make_block("out", [], ["blocked"], [make_block("in", [], ["cleanup-fails"], [], uid)], uid)]
@@ -202,6 +214,14 @@ def judge(R: Recorder, prog: list[dict[str, Any]], out: dict[str, Any], k: int, 
         return
     R.monitor("terminates", True)
     victim = out.get("victim")
+    if phase == "body" and any(b.get("convert_cancel") for b in blocks_of(prog)):
+        # the request was delivered into a body that answers cancellation with its own error: user code caught it - either end is fine
+        R.monitor("victim-cancelled", None)
+        R.count("delivered_into_a_body_that_converts_cancellation")
+        return
+    if any(b.get("convert_cancel") for b in blocks_of(prog)):
+        where["group_self_cancelled_in_body"] = True
+        R.count("injections_after_group_cancelled_its_parent")
     kind = "returned-normally" if victim == "returned" else ("raised-instead" if victim != "cancelled" else "ok")
     R.monitor("victim-cancelled", victim == "cancelled", where={**where, "kind": kind},
               detail=f"cancellation delivered at suspension point {k} (phase {phase}) but the victim {victim!r}; events={W.events}", case=rec)
